@@ -48,7 +48,28 @@ RULE = ("random grammars (2-6 non-terminals with permuted names, 2-5 terminals, 
         "productions / synonyms / keywords objects (other smart_factorization value and/or start symbol) running a subset of the "
         "calls.  Compared in Coq with the model (C01/RunTok.v): constructor outcome, is_ambiguous (asked before and again after the calls), validator verdict, the model "
         "tokenizer's non-skipped tokens of every text against the generator's, the tree or error class of every call, the same "
-        "for the second parser.  Non-trivial session = some call returns a tree and there are repeated calls.")
+        "for the second parser.  Non-trivial session = some call returns a tree and there are repeated calls.  "
+        "LINE ENDS / ODD CHARACTERS (text sessions): besides the fixed lexemes every class whose pattern admits any character "
+        "(double / single quoted strings, end-of-line comments, the bodies of span comments -- also when the comment class is not "
+        "skipped --, and a rest-of-line class REST (=... / :... / !..., renamed to TEXT or not, with a keyword or not, never skipped "
+        "by default)) gets 1-4 generated lexemes containing the characters at which str.splitlines() cuts but split('\\n') does not "
+        "(VT, FF, FS, GS, RS, NEL, U+2028, U+2029, a lone CR), other white space (US, NBSP, U+3000, TAB), non-space oddities "
+        "(U+200B, U+FEFF, DEL, backslash); lexemes that end a line may carry trailing white space of any of these kinds (stripped by "
+        "the tokenizer: the generator's value is the lexeme without it); span bodies over 1-3 lines with such characters before the "
+        "newline; separators between tokens include FF, CR LF, a lone CR, U+2028, GS+NEL; when white space is NOT skipped it is a "
+        "token made of these characters between two tokens and at the start of a line (also of the text) and no token at the end of "
+        "a line; 5% of the texts end in an unclosed span or contain a foreign character (expected: LexicalError).  "
+        "ARGUMENT OBJECTS (70% of the sessions): all mutable constructor arguments (productions dict and its lists, synonyms, "
+        "keywords, span_matchers, skip_tokens as set / list / tuple / frozenset -- for plain sessions an explicit {'SPACE'} --, "
+        "keep_symbols as a set) are made once, kept, compared with a structural snapshot after every constructor and parse call "
+        "(the library must not modify them), and after the calls of the first and second parser the CALLER changes them in place: "
+        "token names that occur in the texts are added to the skip container / a name is removed from it, keep_symbols grows, "
+        "span_matchers is emptied; then (75%) a THIRD parser is made from the objects as they are now (other skip set: the three "
+        "parsers live together) and used; then a production is appended / popped / the list reversed / emptied / a symbol added / "
+        "deleted in the productions dict, keyword entries are set (an occurring (class, value) -> a terminal of the grammar or a new "
+        "name) / deleted, a synonym is set / deleted; then every text is parsed again by the first parser (plus earlier calls with "
+        "a start symbol) and subsets by the second and third.  Expected (model: a parser is a value; oracle: the tokens and the "
+        "skip set of the configuration each parser was made from): the same answers as before.")
 TRUSTED_BASE = [
     "plain cases / plain sessions: the model's parse receives the generator's token list (names, values, $END$ last and only "
     "there) while the implementation tokenises the rendered text; text sessions: the model tokenises the text itself with the "
@@ -59,6 +80,10 @@ TRUSTED_BASE = [
     "GrammarError checks of _verify_grammar_structure_part1 (unknown symbols etc.) are outside the model; generated grammars "
     "never trigger them and the theorems do not need them (an unknown symbol only makes parses fail)",
     "python -O would switch off the constructor's name assertions that the model treats as rejections",
+    "gen/C01_Consts.v (syn_aliased, kw_aliased): read from the AST of _Tokenizer.__init__ (the two assignments of self.synonyms / "
+    "self.keywords: the argument itself / arg or {} = alias; dict(...) / {**...} / .copy() = copy; anything else, or another "
+    "assignment of these attributes anywhere in _Tokenizer / LLParser, fails closed) and of the _Tokenizer(...) call in "
+    "LLParser.__init__; the in-place changes of the argument objects are applied by the harness with plain dict / list / set methods",
 ]
 ASSUMPTIONS = ["grammars use plain productions (templates are C05's subject)",
                "parse_text_sound: no literal / end-of-line pattern is empty (lexicon_ok), $END$ is not a token name of the "
@@ -69,7 +94,8 @@ MODELLED = ("ak/llparser.py: LLParser.__init__ name assertions, _create_producti
             "_verify_grammar_structure_part2, the main loop of parse incl. suffix splicing and roll-back (coq/LLP/*.v); "
             "parse() on a text: the start_symbol_name assertion 1639-1643, _Tokenizer.tokenize 240-334 incl. synonyms and keywords "
             "(coq/C04/Model.v), get_all_token_names, the default / explicit skip_tokens of the constructor 1574-1587 and the "
-            "filter 1646-1649 (coq/C01/RunTok.v build_cfg, parse_text)")
+            "filter 1646-1649 (coq/C01/RunTok.v build_cfg, parse_text); _Tokenizer.__init__ 228-229 (copies of the synonyms / "
+            "keywords dicts: constants syn_aliased / kw_aliased + RunTok.v cfg_after)")
 
 
 _DICT_MODE = {}     # repo path -> (syn_aliased, kw_aliased), filled by gen_consts / _dict_mode
@@ -1292,16 +1318,22 @@ def _expected_session(case, obs):
     return "()"
 
 
-def _toks_after(case):
-    """the non-skipped tokens of every text after the caller changed the argument objects in place, as the generator knows
-    them: the same as before -- except where the source says that the tokenizer kept the caller's own synonyms / keywords
-    dict (gen/C01_Consts.v): there the names follow the changed dict by the documented naming rule; the skip set is always
-    the one the constructor was given.  -> [None (LexicalError) | [[name, value], ...]]"""
+def _toks_after(case, model=False):
+    """the non-skipped tokens of every text after the caller changed the argument objects in place: the same as before
+    (-> [None (LexicalError) | [[name, value], ...]]): a parser is made from the VALUES of its arguments (since /repo
+    f245e65 also of the synonyms / keywords dicts; finding constructor-argument-objects, fixed).
+    model=True: what the MODEL is expected to say -- the model follows the source (gen/C01_Consts.v): where the tokenizer
+    keeps the caller's own synonyms / keywords dict the names follow the changed dict by the documented naming rule; the
+    skip set is always the constructor's.  On today's source both readings coincide; after a revert of f245e65 the model
+    (and the implementation) follow the dict, the oracle does not, and the theorem later_dict_changes_do_not_reach_the_parser
+    no longer checks."""
     ch = case.get("change") or {}
     cfg, cfg2 = case["cfg"], ch.get("cfg2")
-    if cfg is None or not cfg2:
+    if cfg is None or not cfg2 or not model:
         return [t["toks"] for t in case["texts"]]
     syn_a, kw_a = _mode()
+    if not (syn_a or kw_a):
+        return [t["toks"] for t in case["texts"]]
     eff = dict(cfg, syn=cfg2["syn"] if syn_a else cfg["syn"], kw=cfg2["kw"] if kw_a else cfg["kw"])
     skip = set(_cfg_skipset(cfg))
     out = []
@@ -1333,7 +1365,7 @@ def _observation_session(case, obs):
         second = SX.err(o2["ctor"][1]) if o2["ctor"][0] == "err" else [0, o2["amb"], _sx_results(o2["res"]), o2["amb_after"]]
     ch = case.get("change") or {}
     changed = bool(ch.get("after") or ch.get("after2") or ch.get("third"))
-    toks_after = [_sx_toks(t) for t in _toks_after(case)] if changed else []
+    toks_after = [_sx_toks(t) for t in _toks_after(case, model=True)] if changed else []
     third = []
     if obs.get("third"):
         o3 = obs["third"]
@@ -1417,18 +1449,8 @@ def _toks_third(case, after):
     skip0, skip3 = set(_cfg_skipset(cfg)), set(_cfg_skipset(cfg3))
     if skip0 - skip3:
         return None          # something skipped so far is a token now: white space is not in the lists, comments only partly
-    eff = cfg
-    if after and ch.get("cfg2"):
-        syn_a, kw_a = _mode()
-        eff = dict(cfg, syn=ch["cfg2"]["syn"] if syn_a else cfg["syn"], kw=ch["cfg2"]["kw"] if kw_a else cfg["kw"])
-    out = []
-    for t in case["texts"]:
-        if t["toks"] is None:
-            out.append(None)
-        else:
-            named = [[_rule_name(eff, grp, v, sp), v] for _, v, grp, sp in t["full"]]
-            out.append([x for x in named if x[0] not in skip3])
-    return out
+    # the names are those of the configuration the parser was made from, also after the dicts were changed (after=True)
+    return [None if t["toks"] is None else [x[:2] for x in t["full"] if x[0] not in skip3] for t in case["texts"]]
 
 
 def _shrink_session(case):
@@ -1457,10 +1479,14 @@ def _shrink_session(case):
 def kind(case):
     if _is_session(case):
         cfg = case["cfg"]
+        ch = case.get("change")
+        chg = f" args-changed={int(bool(ch))} third={int(bool(ch and ch.get('third')))}"
         if cfg is None:
-            return f"session plain second={int(bool(case.get('second')))}"
+            return f"session plain second={int(bool(case.get('second')))}" + chg
+        odd = any(c in t["text"] for t in case["texts"] for c in LINE_BREAKISH)
         return (f"session text syn={int(bool(cfg['syn']))} kw={int(bool(cfg['kw']))} "
-                f"skip={'default' if cfg['skip'] is None else 'explicit'} second={int(bool(case.get('second')))}")
+                f"skip={'default' if cfg['skip'] is None else 'explicit'} second={int(bool(case.get('second')))}" + chg
+                + f" odd-line-ends={int(odd)}")
     g = case["g"]
     prods = dict(g["prods"])
     has_prefix = any(a and b and a[0] == b[0] for alts in prods.values() for a, b in zip(alts, alts[1:]))
@@ -1704,10 +1730,20 @@ LEVEL_TEXT = ("Full (model level; all user grammars, all token lists, all iterat
               "entry, skipped non-renamed class, comments, a common-prefix group, a LexicalError, a per-call start symbol), "
               "per_call_helper_start_rejected (regression shape of the fixed finding helper-start-symbol-per-call: S__S00 is a key "
               "of prods_map and is rejected; the oracle reports any tree obtained with such a start symbol).  State between parse() calls and between parsers made from the same productions object is not a "
-              "theorem (the model is a pure function): it is tested by the sessions of the correspondence run.")
+              "theorem (the model is a pure function): it is tested by the sessions of the correspondence run.  "
+              "text_is_cut_at_newlines_only / text_without_newline_is_one_line: a text that is lines joined by newlines is tokenised "
+              "from exactly these lines (rstripped), whatever other characters they contain (FF, VT, lone CR, NEL, U+2028 ... stay "
+              "inside the token that matches them); Example odd_characters_stay_inside_tokens.  "
+              "later_dict_changes_do_not_reach_the_parser / calls_after_the_change_answer_as_before: the configuration with which the "
+              "model tokenises after the caller changed its synonyms / keywords dicts in place is the constructor's -- proved from the "
+              "constants syn_aliased = kw_aliased = false that are regenerated from the source on every run (the proof breaks when "
+              "the tokenizer keeps the caller's dicts again).  That the other argument objects (skip_tokens container, productions, "
+              "span_matchers, keep_symbols) are copied / never modified is tested by the sessions, not proved.")
 LEVEL_NOTE = ("Trusted: Coq kernel + vm_compute; fidelity of the hand model coq/LLP (checked by correspondence on every run, not "
               "proved); the token list handed to the model equals the implementation's non-skipped tokens; the harness.  Finding "
               "fixed during this work: reserved '__' names were accepted inside productions and as start symbol (/repo 6e22989), "
               "regression cases in corpus/C01; parse(text, start_symbol_name='X__S00') returned a tree rooted at a helper symbol "
-              "(/repo 2909322), regression calls in corpus/C01/tokenizer_sessions.json.  The tokenizer model coq/C04/Model.v is imported (not owned) by C01/RunTok.v.")
+              "(/repo 2909322), regression calls in corpus/C01/tokenizer_sessions.json; the tokenizer kept the caller's synonyms / "
+              "keywords dicts, so a later change of them changed the token names of an existing parser (constructor-argument-objects, "
+              "/repo f245e65), regression case in corpus/C01/argument_objects_and_line_ends.json.  The tokenizer model coq/C04/Model.v is imported (not owned) by C01/RunTok.v.")
 DESIGN_REF = "DESIGN.md section 8, C01 and Appendix A"
